@@ -30,7 +30,7 @@ EVIDENCE = os.environ.get("Y0SIM_EVIDENCE_DIR") or os.path.join(VERIF, "evidence
 
 TIERS = {
     # per property: scenarios per group and waves; group = 4 workers running the same scenario ids
-    "quick": {"C14": (1200, 1), "C02": (390, 1), "C11": (3500, 1), "C04": (540, 1), "wall": 200, "min_runs": 300, "max_sigs": 4},
+    "quick": {"C14": (1200, 1), "C02": (330, 1), "C11": (3500, 1), "C04": (540, 1), "wall": 200, "min_runs": 300, "max_sigs": 4},
     "thorough": {"C14": (3600, 6), "C02": (1400, 6), "C11": (20000, 6), "C04": (2100, 6), "wall": 3000, "min_runs": 400, "max_sigs": 8},
 }
 GROUP = 4
